@@ -103,6 +103,19 @@ def constantTimeCompare (x y : List (BitVec 8)) : Int := if x = y then 1 else 0
 /-- `subtle.ConstantTimeSelect(v, x, y)`, the library's own expression `^(v-1)&x | (v-1)&y` on `int` -/
 def constantTimeSelect (v x y : Int) : Int := orInt (andInt (xorInt (v - 1) (-1)) x) (andInt (v - 1) y)
 
+/-- `*p` / `p.f` for a struct pointer held as `Option` (nil = none) -/
+def deref {α : Type} (p : Option α) : Except String α :=
+  match p with
+  | some v => .ok v
+  | none => .error "invalid memory address or nil pointer dereference"
+
+/-- one hexadecimal digit of `encoding/hex` (lower case) -/
+def hexDigit (n : Nat) : BitVec 8 := BitVec.ofNat 8 (if n < 10 then 48 + n else 87 + n)
+
+/-- `hex.EncodeToString(src)`: two lower-case hexadecimal digits per byte (as the bytes of the string) -/
+def hexEncode (src : List (BitVec 8)) : List (BitVec 8) :=
+  src.flatMap fun b => [hexDigit (b.toNat / 16), hexDigit (b.toNat % 16)]
+
 /-- `strings.HasSuffix(s, suffix)` on the bytes of the strings -/
 def hasSuffix (s suffix : List (BitVec 8)) : Bool := suffix.isSuffixOf s
 
